@@ -603,9 +603,13 @@ impl Scenario for Listeners {
         "C13"
     }
     fn variants(&self, _tier: &str) -> Vec<Value> {
-        vec![json!({"drop_second": false}), json!({"drop_second": true})]
+        // flood: listeners that are not read while 40 confirms and 40 returned messages arrive
+        vec![json!({"drop_second": false}), json!({"drop_second": true}), json!({"flood": 40})]
     }
-    fn bound(&self, tier: &str, _p: &Value) -> usize {
+    fn bound(&self, tier: &str, p: &Value) -> usize {
+        if p["flood"].is_u64() {
+            return if tier == "thorough" { 1 } else { 0 };
+        }
         if tier == "thorough" {
             3
         } else {
@@ -616,6 +620,9 @@ impl Scenario for Listeners {
         "a publisher thread registers a confirm listener and a return listener, publishes twice, replaces the confirm listener (optionally dropping the new one at once), publishes again and makes an RPC; the connection thread registers a blocked listener twice; the server acknowledges every publish, and nacks, returns a message, and sends blocked / unblocked notices at any point; oracle: the listeners' queues concatenate to exactly the server's events in order and unchanged, the replaced listeners are disconnected, events for a dropped listener vanish and the RPC still succeeds".into()
     }
     fn build(&self, p: &Value) -> Built {
+        if let Some(k) = p["flood"].as_u64() {
+            return flood_listeners(k as usize);
+        }
         let mut broker = StdBroker::new(Handshake::default());
         broker.pushes.push(Push::new("nack", vec![AMQPFrame::Method(1, AMQPClass::Basic(basic::AMQPMethod::Nack(basic::Nack { delivery_tag: 99, multiple: true, requeue: false })))]).when_channel(1, 2));
         chain(
@@ -697,6 +704,14 @@ impl Scenario for Listeners {
         let mut v = Vec::new();
         let a = o.logs.get("a").cloned().unwrap_or_default();
         let main = o.logs.get("main").cloned().unwrap_or_default();
+        if let Some(k) = p["flood"].as_u64() {
+            let want_c: Vec<String> = (1..=k).map(|i| format!("Ack({},false)", i)).collect();
+            let want = vec![format!("confirms {:?}", want_c), format!("returns {} in order true", k), "close -> Ok".to_string()];
+            if main != want {
+                v.push(("listeners:unread-listener-lost-events".into(), format!("{} confirms and {} returned messages were sent while nobody read the listeners; afterwards: {:?}", k, k, main)));
+            }
+            return v;
+        }
         // what the I/O thread saw, in order (= what the server sent and was read before the end)
         let mut confirms = Vec::new();
         let mut confirms_before_qos = 0usize;
@@ -825,6 +840,59 @@ impl Scenario for Listeners {
             v.push(("listeners:close".into(), format!("{:?}", main)));
         }
         v
+    }
+}
+
+/// C13, unread listeners: `k` publishes acknowledged by the broker and `k` returned messages
+/// (one push) while the confirm and return listeners are not read; then both are read.
+fn flood_listeners(k: usize) -> Built {
+    let mut broker = StdBroker::new(Handshake::default());
+    let mut frames = Vec::new();
+    for i in 0..k {
+        frames.push(AMQPFrame::Method(1, AMQPClass::Basic(basic::AMQPMethod::Return(basic::Return { reply_code: 312, reply_text: "NO_ROUTE".into(), exchange: "x".into(), routing_key: format!("k{}", i) }))));
+        frames.push(header(1, 1, false));
+        frames.push(body(1, &[i as u8]));
+    }
+    // offered once confirm.select (request 2 of channel 1) was seen
+    broker.pushes.push(Push::new("returns", frames).when_channel(1, 2));
+    let mut cfg = EnvConfig::default();
+    cfg.max_steps = 20000;
+    Built {
+        broker: Box::new(broker),
+        cfg,
+        root: Box::new(move |ctx: Ctx| {
+            let mut conn = match open(&ctx, ConnectionOptions::default().heartbeat(0), ConnectionTuning::default()) {
+                Ok(c) => c,
+                Err(e) => {
+                    ctx.log(format!("open -> Err({})", err_name(&e)));
+                    return;
+                }
+            };
+            let ch = conn.open_channel(Some(1)).expect("ch1");
+            let confirms = ch.listen_for_publisher_confirms().expect("listen");
+            let returns = ch.listen_for_returns().expect("listen returns");
+            ch.enable_publisher_confirms().expect("confirm.select");
+            for i in 0..k {
+                ch.basic_publish("", Publish::new(&[i as u8], "k")).expect("publish");
+            }
+            // virtual time passes only when nothing else can happen: all acks and the push are in
+            ctx.sleep_ms(10);
+            let _ = ch.qos(0, 1, false);
+            let got: Vec<String> = confirms
+                .try_iter()
+                .map(|c| match c {
+                    amiquip::Confirm::Ack(p) => format!("Ack({},{})", p.delivery_tag, p.multiple),
+                    amiquip::Confirm::Nack(p) => format!("Nack({},{})", p.delivery_tag, p.multiple),
+                })
+                .collect();
+            ctx.log(format!("confirms {:?}", got));
+            let rets: Vec<amiquip::Return> = returns.try_iter().collect();
+            let in_order = rets.iter().enumerate().all(|(i, r)| r.routing_key == format!("k{}", i) && r.content == vec![i as u8]);
+            ctx.log(format!("returns {} in order {}", rets.len(), in_order));
+            std::mem::forget(ch);
+            let r = conn.close();
+            ctx.log(format!("close -> {}", res(&r)));
+        }),
     }
 }
 
